@@ -12,6 +12,8 @@ CONTRACTS = {
         alternatives=[[('nthread >= 1', 'nthread : number of threads')],
                       [('nthread <= -1', 'nthread : "Values < 0 use numba.config.NUMBA_NUM_THREADS"')]],
         float_bounds=[('pos[i, coord] * inv_pwidth', '0', None,
+                       'pos : "The positions, in domain [0,boxsize)" so the truncated key is >= 0 (L7)'),
+                      ('np.float64(pos[i, coord]) * npartition / boxsize', '0', None,
                        'pos : "The positions, in domain [0,boxsize)" so the truncated key is >= 0 (L7)')],
         value_indices={'s': 's = pointers[t, k] is a thread-private cursor inside [0, len(pos)) by the transposed prefix-sum construction (C17-R2/R3)'},
     ),
@@ -104,7 +106,9 @@ _BIN = dict(
     rank={'kedges': 1, 'muedges': 1, 'weights': 3, 'poles': 1},
     requires=[('weights.shape[0] >= n1d', _MESH), ('weights.shape[1] >= n1d', _MESH), ('weights.shape[2] >= n1d // 2 + 1', _MESH),
               ('len(kedges) >= 2', _EDGES), ('n1d >= 0', 'mesh size'), ('nthread >= 1', 'nthread : "Number of numba threads to use"')],
-    cursor_reasons={'muedges2': 'mu^2 = k^2/|k|^2 <= 1 <= muedges[-1]^2 ("mu ranges from 0 to 1"): the mu search stops before the last edge'},
+    # no cursor reason for muedges2 any more: "mu ranges from 0 to 1" does not bound the EDGES a caller passes (array mubins are used
+    # as-is); since F34 the mu search is dominated by its own range test like the k and pi searches
+    cursor_reasons={},
 )
 CONTRACTS.update({
     'abacusnbody/analysis/power_spectrum.py:bin_kmu': dict(
@@ -121,8 +125,11 @@ CONTRACTS.update({
     'abacusnbody/analysis/power_spectrum.py:linear_interp': dict(
         params={'xd': 'opaque', 'x': 'arr', 'y': 'arr'}, rank={'x': 1, 'y': 1},
         requires=[('len(x) >= 2', '"x entries are equidistant and monotonically increasing"'), ('len(y) == len(x)', 'y values at each x')],
-        float_bounds=[('np.int64(f)', '0', 'len(x) - 2', '"Assumes x entries are equidistant and monotonically increasing": x[0] < xd < x[-1] gives 0 <= floor((xd-x0)/dx) <= len-2',
-                       [['xd <= x[0]', 'xd < x[0]', 'x[0] >= xd', 'x[0] > xd'], ['xd >= x[-1]', 'x[-1] <= xd']])]),
+        # Only the LOWER bound is a floating-point fact (xd > x[0] and dx > 0 give (xd - x[0]) / dx >= 0 in any rounding mode).
+        # The upper bound  floor((xd - x0)/dx) <= len-2  holds in real arithmetic only: dx = x[1] - x[0] is rounded, and for xd
+        # one ulp below x[-1] the quotient is exactly len-1 (F18: y[len] was read).  The code has to clamp the index itself.
+        float_bounds=[('np.int64(f)', '0', None, '"Assumes x entries are equidistant and monotonically increasing": xd > x[0] and x[1] > x[0] give floor((xd-x0)/dx) >= 0',
+                       [['xd <= x[0]', 'xd < x[0]', 'x[0] >= xd', 'x[0] > xd']])]),
     'abacusnbody/analysis/power_spectrum.py:get_delta_mu2': dict(
         params={'delta': 'arr', 'n1d': 'int', 'dtype_c': 'opaque', 'dtype_f': 'opaque'}, rank={'delta': 3},
         requires=[('delta.shape[0] >= n1d', 'delta : rfft mesh of shape (n1d, n1d, n1d//2+1)'), ('delta.shape[1] >= n1d', 'delta : rfft mesh'),
